@@ -1392,10 +1392,10 @@ MP('r56_owned_rename_swapped', ['C08'], ['C08-R7'], 'to_owned with named locals:
 NP('n_ref8_passing_style', ALL, 'R57: by-value / by-reference / associated-function forms of private helpers', 'selftest/neutral/R57.diff')
 NP('n_ref8_result_plumbing', ALL, 'R61: ensure() helper, map / `?` / let-else plumbing', 'selftest/neutral/R61.diff')
 NP('n_ref8_private_enums', ['C06', 'C07', 'C11', 'C12', 'C13', 'C16', 'C20'], 'R58: private enums and a parameter struct instead of bools (other checks: known alarms, DESIGN 10.6)', 'selftest/neutral/R58.diff')
-NP('n_ref8_pipelines', ['C11', 'C12', 'C13', 'C16'], 'R59: try_for_each / from_fn pipelines in lib.rs (other checks: known alarms, DESIGN 10.6)', 'selftest/neutral/R59.diff')
+NP('n_ref8_pipelines', ['C11', 'C12', 'C13'], 'R59: try_for_each / from_fn pipelines in lib.rs (other checks: known alarms, DESIGN 10.6; C16 joined them in session 13 when it began re-running C07-R3/R4, which cannot read the Feed loop as a try_for_each pipeline)', 'selftest/neutral/R59.diff')
 NP('n_ref9_next_chain_and_try', ALL, 'R62: Members::next as one map/or_else chain and `?`', 'selftest/neutral/R62.diff')
 NP('n_ref9_next_start_local_cloned', ALL, 'R63: cursor bound to a local, fallback as match, cursor assigned from an if-expression; probe_random_member takes next(..).cloned()', 'selftest/neutral/R63.diff')
-NP('n_ref9_next_subslices', [x for x in ALL if x != 'C06'], 'R64: inner[cursor..] / inner[..cursor] instead of skip/take, let-else (C06: the new range-index sites are in bounds by the reset above them, which C06-R2 has no discharge for: reported, DESIGN Changes session 12)', 'selftest/neutral/R64.diff')
+NP('n_ref9_next_subslices', ALL, 'R64: inner[cursor..] / inner[..cursor] instead of skip/take, let-else (C06: the range-index sites are discharged by the reset above them since session 13 - `cursor < len` or `cursor = 0` on every path; the one inside the or_else closure through its shared captures)', 'selftest/neutral/R64.diff')
 NP('n_ref9_next_range_helper', [x for x in ALL if x != 'C14'], 'R65: first_active_in(range) helper over enumerate/skip/take/find, advance_cursor helper (C14: reported unreadable, DESIGN 10.7 limits)', 'selftest/neutral/R65.diff')
 NP('n_ref8_moved_functions', ALL, 'R60: private methods moved to free functions / other impl blocks, a kind predicate deleted and inlined at its use', 'selftest/neutral/R60.diff')
 
@@ -1416,5 +1416,7 @@ MP('r63_advance_from_start', ['C14'], ['C14-R4'], 'the cursor advances from the 
    'selftest/neutral/R63.diff', (MEMBER, '                    pos.saturating_add(1)\n', '                    start.saturating_add(1)\n'))
 MP('r64_wrap_slice_short', ['C14'], ['C14-R3'], 'sub-slice fallback stops one record before the cursor',
    'selftest/neutral/R64.diff', (MEMBER, 'self.inner[..self.cursor]\n', 'self.inner[..self.cursor.saturating_sub(1)]\n'))
+MP('r64_reset_dropped', ['C06'], ['C06-R2'], 'sub-slice form without the cursor reset: inner[cursor..] with cursor > len panics',
+   'selftest/neutral/R64.diff', (MEMBER, ('re', r'self\.cursor = 0;(?=[^;]*?// Find an active member)'), '// cursor kept'))
 MP('r64_offset_not_added', ['C14'], ['C14-R3'], 'the sub-slice position is used as an absolute index',
    'selftest/neutral/R64.diff', (MEMBER, '.map(|pos| self.cursor + pos)', '.map(|pos| pos)'))
